@@ -351,6 +351,7 @@ def check(P, R):
     check_pairing(P, R)
     check_fresh_route(P, R, 'C11.d', 'after any edit history the router answers like a freshly built one')
     check_no_clear_after_merge(P, R, 'C11.d')
+    check_hooks_only_keeps_route(P, R, 'C11.b')
     check_name_after_registration(P, R, 'C11.c')
     # ---- e
     c01.check_idx_pairing(P, R, 'C11.e')
@@ -416,6 +417,47 @@ def check_name_after_registration(P, R, rid):
              f'`{short(st)}` binds the name before `{short(late[0])}`, which raises when the method is already registered on the route: the rejected add leaves the new name '
              f'bound - router[name] resolves, and remove(name=...) deletes the route that was there before',
              why='a rejected registration leaves the router as it was', key_extra='name-before-reject')
+
+
+def check_hooks_only_keeps_route(P, R, rid):
+    """remove(.., hooks_only=True) on a node that carries a route leaves the route's slots alone: with `hooks_only` true, the stores that clear DATA / PARAMS are
+    reached only when the node has no route (`node[DATA] is None`)"""
+    f = P.func('ombott.router.radidict:RadiDict.remove')
+    g = f.cfg
+    if 'hooks_only' not in f.params:
+        return
+    ho_tests = [(n, 'false') for n in g.nodes if n.kind == 'test' and isinstance(strip_not(n.ast)[0], ast.Name) and strip_not(n.ast)[0].id == 'hooks_only'
+                and not strip_not(n.ast)[1]]
+    ho_tests += [(n, 'true') for n in g.nodes if n.kind == 'test' and isinstance(strip_not(n.ast)[0], ast.Name) and strip_not(n.ast)[0].id == 'hooks_only'
+                 and strip_not(n.ast)[1]]
+    data_edges = []
+    for n in g.nodes:
+        if n.kind != 'test':
+            continue
+        t, neg = strip_not(n.ast)
+        cp = compare_parts(t)
+        if cp and isinstance(cp[0], ast.Subscript) and c01.slot_name(cp[0]) == 'DATA' and is_const(cp[2], None) and cp[1] in (ast.Is, ast.IsNot):
+            has_route = 'true' if (cp[1] is ast.IsNot) != neg else 'false'
+            data_edges.append((n, has_route))
+        elif isinstance(t, ast.Subscript) and c01.slot_name(t) == 'DATA':
+            data_edges.append((n, 'false' if neg else 'true'))
+    if not ho_tests:
+        R.undecided(rid, f, f.node, 'remove(hooks_only=True)', 'no test of `hooks_only` found')
+        return
+    for st in walk_shallow(f.node):
+        if not isinstance(st, ast.Assign):
+            continue
+        tg = [t for t in st.targets if isinstance(t, ast.Subscript) and c01.slot_name(t) in ('DATA', 'PARAMS')]
+        if not tg:
+            continue
+        sn = g.node_of_stmt(st)[0]
+        # with hooks_only true and a route on the node (the has-route edge of every DATA test excluded): can the store still be reached?
+        reach = g.can_reach(g.entry, sn, avoid_edges=set(ho_tests) | {(n, 'false' if lab == 'true' else 'true') for (n, lab) in data_edges})
+        # (the avoid set removes the edges taken when hooks_only is false and when the node has no route)
+        R.ob(rid, f, st, not reach, text=f'`{short(st)}`: not reached for hooks_only=True on a node that carries a route', detail='' if not reach else
+             f'`{short(st)}` is executed by remove(.., hooks_only=True) also when the node carries a route: removing a route hook wipes the wildcard names (or the route) of the '
+             f'rule registered on the same pattern - the route still matches but reports no parameters, and url() built from them raises KeyError',
+             why='after remove_hook the router answers every path like a freshly built one', key_extra='hooks-only-keeps-route')
 
 
 def check_no_clear_after_merge(P, R, rid):
